@@ -7,7 +7,7 @@ From DH Require Import Lib.CheckLib Model.Partition.
 Import ListNotations.
 Open Scope Z_scope.
 
-Inductive kind := KIdentity | KDropOdd | KDup | KCreate.
+Inductive kind := KIdentity | KDropOdd | KDup | KCreate | KDropLow.
 
 (** the per-entity behaviour of the four JavaScript transforms of the driver *)
 Definition g_of (k : kind) (e : Z) : list Z :=
@@ -16,6 +16,7 @@ Definition g_of (k : kind) (e : Z) : list Z :=
   | KDropOdd => if Z.even e then [e] else []
   | KDup => [e; e]
   | KCreate => [e; 100000 + e]
+  | KDropLow => if e <? 2 then [] else [e]     (* filters out whole leading pages when the batch size is 1 or 2 *)
   end.
 
 Record tcase := {
